@@ -22,6 +22,8 @@
 (*   FlushCall/FlushReturn, StopCall/StopReturn, Quiet: covered-by checks    *)
 EXTENDS ProducerCore, TraceKit
 
+NoLeaderInt == -1   \* cfg files cannot spell a negative number
+
 VARIABLES tid, l, waitset
 
 tvars == <<vars, tid, l, waitset>>
